@@ -46,10 +46,13 @@ EXTENDS Integers, Sequences, FiniteSets, Json, TLC
 
 CONSTANTS Clients, Topics, Msgs,          \* small integers (> 0)
           Requesters, Responders, Closers,\* disjoint sets of thread ids
-          ClientOf,                       \* thread -> client
-          SubOf,                          \* client -> subscribed topic, 0 = none
           HighCap, LowCap, RecvCap,
           MaxReq,                         \* bound on NewMessage calls
+          SendModes, WaitModes,           \* subsets of {"block","zero","timed"} / {"block","timed"} used by requesters
+          WRs,                            \* subset of BOOLEAN: waitReply flags used
+          ReqTopics,                      \* topics requesters send to
+          CloseTargets,                   \* clients the closers may Close()
+          QueueClose,                     \* closers may call queue.Close()
           FixLowDone,       \* sendLowTimeout(-1) selects on sub.done  (queue.go)
           FixCloseSweep,    \* Close sets isClose inside the sweep; chanSub creates closed topics afterwards
           FreeAfterTimeout, \* contract-breaking requester (free a sent message without consuming the reply)
@@ -60,6 +63,11 @@ vars == <<qflag, qsw, qstarted, tp, cl, ob, th, nreq, deliv, bad, cret, qret, ac
 view == <<qflag, qsw, qstarted, tp, cl, ob, th, nreq, deliv, bad, cret, qret>>
 
 Threads == Requesters \cup Responders \cup Closers
+\* Naming convention shared with the driver: requester x < 50 owns client x; requester 50+k shares the
+\* subscriber client 100+k (a module that serves and asks); responder 100+10k+j reads client 100+k;
+\* client 100+k is subscribed to topic k; closers (>= 200) have no client of their own.
+ClientOf == [x \in Threads |-> IF x < 50 THEN x ELSE IF x < 100 THEN x + 50 ELSE IF x < 200 THEN 100 + ((x - 100) \div 10) ELSE 0]
+SubOf == [c \in Clients |-> IF c > 100 THEN c - 100 ELSE 0]
 SubClients == {c \in Clients : SubOf[c] # 0}
 
 Emit(r) == act' = IF EmitOn THEN ToJson(r) ELSE ""
@@ -99,15 +107,17 @@ Ret(x, p, v) == th' = [th EXCEPT ![x].pc = p, ![x].ret = v]
 -----------------------------------------------------------------------------
 \* Requester r
 
-New(r, o, t, w) ==
+\* q: the unique payload of the request
+New(r, o, t, w, q) ==
   /\ th[r].pc = "idle" /\ nreq < MaxReq
   /\ ob[o].st \in {"new", "pool"}
-  /\ ob[o].st = "new" => \A o2 \in Msgs : ob[o2].st = "new" => o <= o2   \* fresh objects are interchangeable
-  /\ ob' = [ob EXCEPT ![o].st = "live", ![o].req = nreq + 1, ![o].topic = t, ![o].wr = w]
+  /\ ob' = [ob EXCEPT ![o].st = "live", ![o].req = q, ![o].topic = t, ![o].wr = w]
   /\ nreq' = nreq + 1
-  /\ Set(r, [IdleTh EXCEPT !.pc = "have", !.m = o, !.req = nreq + 1, !.wr = w])
+  /\ Set(r, [IdleTh EXCEPT !.pc = "have", !.m = o, !.req = q, !.wr = w])
   /\ UNCHANGED <<qflag, qsw, qstarted, tp, cl, deliv, bad, cret, qret>>
-  /\ Emit([op |-> "New", th |-> r, m |-> o, req |-> nreq + 1, topic |-> t, wr |-> w])
+  /\ Emit([op |-> "New", th |-> r, m |-> o, req |-> q, topic |-> t, wr |-> w])
+\* never-used objects are interchangeable: the model checker takes the smallest
+FreshMin(o) == ob[o].st = "new" => \A o2 \in Msgs : ob[o2].st = "new" => o <= o2
 
 SendS(r, md) ==
   /\ th[r].pc = "have"
@@ -199,7 +209,7 @@ Free(r) ==
 
 \* the requester forgets its message without recycling it
 Drop(r) ==
-  /\ th[r].pc \in {"got", "fail", "sent", "have"}
+  /\ th[r].pc \in {"got", "fail", "sent"}
   /\ Set(r, IdleTh)
   /\ UNCHANGED <<qflag, qsw, qstarted, tp, cl, ob, nreq, deliv, bad, cret, qret>>
   /\ Emit([op |-> "Drop", th |-> r])
@@ -335,7 +345,7 @@ CloseCE(k) ==
   /\ Emit([op |-> "CloseCE", th |-> k, c |-> th[k].c, ret |-> th[k].ret])
 
 CloseQS(k) ==
-  /\ th[k].pc = "idle" /\ ~qstarted
+  /\ th[k].pc = "idle" /\ ~qstarted /\ QueueClose
   /\ qstarted' = TRUE
   /\ Goto(k, "q1")
   /\ UNCHANGED <<qflag, qsw, tp, cl, ob, nreq, deliv, bad, cret, qret>>
@@ -359,17 +369,15 @@ CloseQE(k) ==
   /\ Emit([op |-> "CloseQE", th |-> k])
 
 -----------------------------------------------------------------------------
-Modes == {"block", "zero", "timed"}
-WModes == {"block", "timed"}
 
 ReqInternal(r) == S1(r) \/ S2(r) \/ S3(r) \/ S4(r) \/ W1(r) \/ W2(r)
-ReqStep(r) == \/ \E o \in Msgs, t \in Topics, w \in BOOLEAN : New(r, o, t, w)
-              \/ \E md \in Modes : SendS(r, md)
-              \/ \E md \in WModes : WaitS(r, md)
+ReqStep(r) == \/ \E o \in Msgs, t \in ReqTopics, w \in WRs : FreshMin(o) /\ New(r, o, t, w, nreq + 1)
+              \/ \E md \in SendModes : SendS(r, md)
+              \/ \E md \in WaitModes : WaitS(r, md)
               \/ ReqInternal(r) \/ SendE(r) \/ WaitE(r) \/ Free(r) \/ Drop(r)
 RespStep(s) == RecvS(s) \/ R1(s) \/ RecvE(s) \/ Reply(s) \/ Ignore(s) \/ FreeAsync(s)
 PumpStep(c) == PumpOuter(c) \/ PumpInner(c) \/ PumpPut(c)
-CloserStep(k) == \/ \E c \in Clients : CloseCS(k, c)
+CloserStep(k) == \/ \E c \in CloseTargets : CloseCS(k, c)
                  \/ K1(k) \/ K2(k) \/ K3(k) \/ K4(k) \/ K5(k) \/ K6(k) \/ CloseCE(k)
                  \/ CloseQS(k) \/ Q1(k) \/ Q2(k) \/ CloseQE(k)
 
